@@ -2,7 +2,7 @@
    ExtrOcamlBasic only: bool, option, unit, list, prod, sumbool map to OCaml's;
    nat, positive, N, Z stay inductive.  No Extract Constant. *)
 From Coq Require Import Extraction ExtrOcamlBasic.
-From JP Require Import Base Json PyStr Fluent ListSpec Pointer RelPointer Patch Rfc6901 RelPtrDraft PointerDomain Rfc6902 Edit Syntax Eval EvalAsync Regex Rfc9535 Rfc9535Typing NormPath Project ProjectSpec Lex Parse Serialize Cache Gate Cli CliSpec.
+From JP Require Import Base Json PyStr Fluent ListSpec Pointer RelPointer Patch Rfc6901 RelPtrDraft PointerDomain Rfc6902 Edit Syntax Eval EvalAsync Regex Rfc9535 Rfc9535Typing NormPath Project ProjectSpec Lex Parse Serialize Cache Gate Cli CliSpec TokPrint.
 Extraction Language OCaml.
 Extraction "extract/model.ml"
   Fluent.observe ListSpec.sobserve
@@ -25,5 +25,6 @@ Extraction "extract/model.ml"
   Rfc9535Typing.std_query Rfc9535Typing.ext_query
   NormPath.normpath NormPath.valid_normpath
   Lex.tokenize Parse.compile Parse.fn_sig Serialize.query_text Cache.finditer_c Cache.cacheable Cache.any_cacheable Cache.volatile
+  TokPrint.query_toks TokPrint.norm_query Parse.compile_tokens
   Gate.gate_query Cli.cli_run Cli.attrs_defined CliSpec.demanded CliSpec.rejections
   Project.select Project.select_one ProjectSpec.project_tree ProjectSpec.selections_ok ProjectSpec.project_flat ProjectSpec.project_root.
